@@ -9,12 +9,16 @@
      Arrays are passed as the row of the task's world / actuator (the kernel's own
      `worldid % shape[0]` row selection is done by the caller); act_in / act_dot_in are the
      world's rows (lists, read with vget; indices are assumed in range, which the kernel needs
-     too).  `next_act` is the machine-translated support.next_act (Gen/support_act.v).
+     too).  `next_act` is the machine-translated support.next_act (Gen/support_act.v),
+     `muscle_gain_vel` the machine-translated util_misc.muscle_gain_vel (Gen/T_util_misc.v).
+     Since /repo 62f359e the kernel clamps ctrl to ctrlrange like _actuator_force, since ccf2e7d the
+     MUSCLE gain contributes muscle_gain_vel; both are copied here.
 
    * forward._actuator_force, restricted to
-        dyntype  in {NONE 0, INTEGRATOR 1, FILTER 2, FILTEREXACT 3, USER 7}
-        gaintype in {FIXED 0, AFFINE 1, USER 6 (gain stays 0)}   -- not MUSCLE 2 / DCMOTOR 3
-        biastype in {NONE 0, AFFINE 1, USER 5 (bias stays 0)}    -- not MUSCLE 2 / DCMOTOR 3
+        dyntype  in {NONE 0, INTEGRATOR 1, FILTER 2, FILTEREXACT 3, MUSCLE 4, USER 7}   -- not DCMOTOR 5
+        gaintype in {FIXED 0, AFFINE 1, MUSCLE 2, USER 6 (gain stays 0)}                -- not DCMOTOR 3
+        biastype in {NONE 0, AFFINE 1, MUSCLE 2, USER 5 (bias stays 0)}                 -- not DCMOTOR 3
+     (muscle_gain / muscle_bias / muscle_dynamics are the machine-translated util_misc functions)
      -> [actuator_force_model]: (act_dot, force) of one task.  It is the function whose
      velocity derivative the first kernel is supposed to compute.
 
@@ -22,6 +26,7 @@
    random inputs and compared inside Coq with these definitions at binary64 (tv3). *)
 From Coq Require Import ZArith List Bool.
 From VF Require Import Base.Scalar Base.Vec Gen.support_act.
+From VF Require Gen.T_util_misc.
 Import ListNotations.
 Local Open Scope Z_scope.
 
@@ -46,12 +51,15 @@ Definition dc_slot_Ta (dynprm gainprm : list S) : Z :=
 Definition qderiv_vel_model
     (h : S) (dyntype gaintype biastype actadr actnum : Z)
     (dynprm gainprm biasprm : list S) (actlimited : bool) (actrange : list S)
-    (actearly forcelimited : bool) (forcerange : list S)
-    (act_in : list S) (ctrl : S) (act_dot_in : list S) (force : S) : S :=
+    (actearly forcelimited : bool) (forcerange : list S) (ctrllimited : bool) (ctrlrange : list S)
+    (acc0 : S) (lengthrange : list S)
+    (act_in : list S) (ctrl_in : S) (act_dot_in : list S) (length velocity force : S) (dsbl_clampctrl : Z) : S :=
   let bias := sofZ 0 in
   (* gain block *)
   let '(gain, bias) :=
     if Z.eqb gaintype 1 then (vget gainprm 2, bias)
+    else if Z.eqb gaintype 2 then
+      (VF.Gen.T_util_misc.muscle_gain_vel length velocity lengthrange acc0 gainprm, bias)
     else if Z.eqb gaintype 3 then
       let te := vget dynprm 0 in
       let input_mode := strunc (vget gainprm 8) in
@@ -106,7 +114,11 @@ Definition qderiv_vel_model
         sadd vel (smul gain act)
       else vel
     else
-      if sneb gain (sofZ 0) then sadd vel (smul gain ctrl) else vel.
+      if sneb gain (sofZ 0) then
+        let ctrl := if ctrllimited && Z.eqb dsbl_clampctrl 0
+                    then sclamp ctrl_in (vget ctrlrange 0) (vget ctrlrange 1) else ctrl_in in
+        sadd vel (smul gain ctrl)
+      else vel.
 
 (* forward._actuator_force, one task, restricted as described in the header.
    Returns (act_dot stored at act_last, force stored into actuator_force_out). *)
@@ -114,6 +126,7 @@ Definition actuator_force_model
     (na : Z) (h : S) (dyntype gaintype biastype actadr actnum : Z)
     (dynprm gainprm biasprm : list S) (actlimited : bool) (actrange : list S)
     (actearly forcelimited : bool) (forcerange : list S) (ctrllimited : bool) (ctrlrange : list S)
+    (acc0 : S) (lengthrange : list S)
     (act_in : list S) (ctrl_in length velocity : S) (dsbl_clampctrl : Z) : S * S :=
   let ctrl := if ctrllimited && Z.eqb dsbl_clampctrl 0
               then sclamp ctrl_in (vget ctrlrange 0) (vget ctrlrange 1) else ctrl_in in
@@ -124,6 +137,7 @@ Definition actuator_force_model
         if Z.eqb dyntype 1 then ctrl
         else if Z.eqb dyntype 2 || Z.eqb dyntype 3 then
           sdiv (ssub ctrl (vget act_in act_last)) (smax (vget dynprm 0) MINVAL)
+        else if Z.eqb dyntype 4 then VF.Gen.T_util_misc.muscle_dynamics ctrl (vget act_in act_last) dynprm
         else sofZ 0 in
       let ctrl_act :=
         if actearly then
@@ -135,10 +149,12 @@ Definition actuator_force_model
     if Z.eqb gaintype 0 then vget gainprm 0
     else if Z.eqb gaintype 1 then
       sadd (sadd (vget gainprm 0) (smul (vget gainprm 1) length)) (smul (vget gainprm 2) velocity)
+    else if Z.eqb gaintype 2 then VF.Gen.T_util_misc.muscle_gain length velocity lengthrange acc0 gainprm
     else sofZ 0 in
   let bias :=
     if Z.eqb biastype 1 then
       sadd (sadd (vget biasprm 0) (smul (vget biasprm 1) length)) (smul (vget biasprm 2) velocity)
+    else if Z.eqb biastype 2 then VF.Gen.T_util_misc.muscle_bias length lengthrange acc0 biasprm
     else sofZ 0 in
   let force := sadd (smul gain ctrl_act) bias in
   let force := if forcelimited then sclamp force (vget forcerange 0) (vget forcerange 1) else force in
